@@ -29,7 +29,9 @@ def _fails_same(eng, trace, ops, clause):
     return ops[:index + 1]
 
 
-def minimise(eng, trace, max_exec=400):
+def minimise(eng, trace, max_exec=400, wall_s=420.0):
+    import time
+    t_end = time.time() + wall_s
     prop, clause = trace["property"], trace["violation"]["clause"]
     ops = list(trace["ops"])
     executions = 0
@@ -42,15 +44,15 @@ def minimise(eng, trace, max_exec=400):
         return out, executions
     ops = first
     changed = True
-    while changed and executions < max_exec:
+    while changed and executions < max_exec and time.time() < t_end:
         changed = False
         # 1. drop operations (never the failing last one), from the end backwards, in halves first
         n = len(ops) - 1
         chunk = max(1, n // 2)
-        while chunk >= 1 and executions < max_exec:
+        while chunk >= 1 and executions < max_exec and time.time() < t_end:
             i = n - chunk
             progressed = False
-            while i >= 0 and executions < max_exec:
+            while i >= 0 and executions < max_exec and time.time() < t_end:
                 candidate = ops[:i] + ops[i + chunk:]
                 if len(candidate) >= 1 and candidate[-1] is ops[-1]:
                     executions += 1
@@ -64,10 +66,10 @@ def minimise(eng, trace, max_exec=400):
             chunk = max(1, chunk // 2)
         # 2. per-operation simplifiers
         progress = True
-        while progress and executions < max_exec:
+        while progress and executions < max_exec and time.time() < t_end:
             progress = False
             for candidate in eng.simplifications(ops):
-                if executions >= max_exec:
+                if executions >= max_exec or time.time() >= t_end:
                     break
                 executions += 1
                 res = _fails_same(eng, trace, candidate, clause)
